@@ -227,3 +227,65 @@ func VP_C05_count_skeleton() {
 		zzvp.Reach("some")
 	}
 }
+
+// vpCardSkeleton: "at least k of n" over n = 5..6 variables written in a chosen
+// order (every rotation of the ascending and of the descending order), every sign chosen, k in 2..n-1,
+// optionally conjoined with an at-most-one over two of the variables and a
+// clause over two others. These reach cardinality constraints with more
+// literals than watches (k+1 < n), which smaller instances cannot.
+func vpCardSkeleton() (n int, cs []CardConstr, refs []vpRef) {
+	n = 5 + zzvp.Choose("n6", zzvp.Param("n6", 2))
+	order := make([]int, n)
+	rot, rev := zzvp.Choose("rot", n), zzvp.Choose("rev", 2) == 1
+	for i := range order {
+		order[i] = (i+rot)%n + 1
+		if rev {
+			order[i] = n + 1 - order[i]
+		}
+	}
+	lits := make([]int, n)
+	nsym := zzvp.Param("maxsigns", n)
+	for i, v := range order {
+		lits[i] = v
+		if i < nsym && zzvp.Choose("flip", 2) == 1 {
+			lits[i] = -v
+		}
+	}
+	k := 2 + zzvp.Choose("k", n-2)
+	cs = append(cs, CardConstr{Lits: vpCopy(lits), AtLeast: k})
+	refs = append(refs, vpRef{vpCopy(lits), vpOnes(n), 0, k})
+	switch zzvp.Choose("extra", zzvp.Param("extra", 3)) {
+	case 1:
+		cs = append(cs, AtMost1(1, n))
+		refs = append(refs, vpRef{[]int{-1, -n}, []int{1, 1}, 0, 1})
+	case 2:
+		cs = append(cs, AtLeast1(-2, 3), AtMost1(1, n))
+		refs = append(refs, vpRef{[]int{-2, 3}, []int{1, 1}, 0, 1}, vpRef{[]int{-1, -n}, []int{1, 1}, 0, 1})
+	}
+	return
+}
+
+func vpCopyCards(cs []CardConstr) []CardConstr {
+	r := make([]CardConstr, len(cs))
+	for i, c := range cs {
+		r[i] = CardConstr{Lits: vpCopy(c.Lits), AtLeast: c.AtLeast}
+	}
+	return r
+}
+
+// VP_C05_count_card: counting and enumeration on the cardinality skeletons.
+func VP_C05_count_card() {
+	zzvp.IntMode(true)
+	n, cs, refs := vpCardSkeleton()
+	mk := func() *Problem { return ParseCardConstrs(vpCopyCards(cs)) }
+	vpCountCheck(mk, n,
+		func(a int) bool { return vpRefsHold(refs, a) },
+		func(m []bool) bool { return vpRefsHoldM(refs, m) })
+}
+
+// VP_C02_card_skeleton: verdict and model on the cardinality skeletons.
+func VP_C02_card_skeleton() {
+	zzvp.IntMode(true)
+	n, cs, refs := vpCardSkeleton()
+	vpSolveCheck(ParseCardConstrs(vpCopyCards(cs)), refs, n)
+}
